@@ -449,6 +449,15 @@ func (t *AHtree) ResetSize(newSize uint64) error {
 		return err
 	}
 
+	// ... and the cut is made durable before anything else happens: the next Append rewinds the
+	// payload and digest logs, which drops their bytes and chunk files behind the new size. Should
+	// that reach the disk while the commit log still lists the dropped entries, the tree could not
+	// be opened any more (the logs would be shorter than the commit log says).
+	err = t.cLog.Sync()
+	if err != nil {
+		return err
+	}
+
 	// Invalidate caches
 	for i := cLogSize; i < t.cLogSize; i += cLogEntrySize {
 		t.pCache.Pop(uint64(i / cLogEntrySize))
